@@ -80,7 +80,7 @@ CLAIMED = {
         "DESIGN.md 4.10",
     ),
     "C13": (
-        "static classification of every return of the file handler by its dominating conditions (retryable vs fatal, zero tolerance, tolerance elapsed), forward-once path rule with the bufio short-read argument, EOF-clock phi analysis (cleared on success, started only when clear), close/flush rules; configuration accessors as projections; single-sender/confinement rules for the framer goroutine; every-path rule: a retry pause is reached only with an EOF or time-out result",
+        "static classification of every return of the file handler by its dominating conditions (retryable vs fatal, zero tolerance, tolerance elapsed), forward-once path rule with the bufio short-read argument, EOF-clock phi analysis (cleared on success, started only when clear), close/flush rules; configuration accessors as projections; single-sender/confinement rules for the framer goroutine; every-path rules: a retry pause is reached only with an EOF or time-out result and a non-zero tolerance, the send only with n > 0; the reader has a single read site",
         "Decides the retry structure for all placements of EOF/timeout results: which conditions stop the handler, that every byte read is forwarded exactly once, that the partial frame is flushed and the channel closed.",
         "bufio.Reader.Read contract for short destinations; real time not modelled",
         "DESIGN.md 4.13",
@@ -92,7 +92,7 @@ CLAIMED = {
         "DESIGN.md 4.15",
     ),
     "C16": (
-        "static path rules (read->write->send exactly once, in order, same buffer and n), private-copy dataflow, consumer-loop rule, join analysis; every-path rule: the copy loop returns only over an err == io.EOF edge; arithmetic no-panic obligations (index, slice, bit-read extents, division, shift) of the copy loop, recorder and their callees discharged by affine entailment; who-may-call rule: no os.NewFile, syscall.Close/Dup2 or Close of a standard stream reachable from start; constant-argument rule for the daily writers (record name pattern unique to its directory setting) and guarded-store rule for the record directory",
+        "static path rules (read->write->send exactly once, in order, same buffer and n), private-copy dataflow, consumer-loop rule, join analysis; every-path rule: the copy loop returns only over an err == io.EOF edge; arithmetic no-panic obligations (index, slice, bit-read extents, division, shift) of the copy loop, recorder and their callees discharged by affine entailment; who-may-call rule: no os.NewFile, syscall.Close/Dup2, Close of a standard stream, or os.Rename/Remove in the tee reachable from start; constant-argument rule for the daily writers (record name pattern unique to its directory setting) and guarded-store rule for the record directory",
         "Decides the tee structure of rtcmlogger on every CFG path: each block read is written to stdout and sent as a fresh copy to the recorder exactly once, the recorder writes every block and is joined before start returns. Does not decide dailylogger's file handling.",
         "os.File Read/Write contracts; dailylogger is a dependency",
         "DESIGN.md 4.16",
@@ -104,7 +104,7 @@ CLAIMED = {
         "DESIGN.md 4.17",
     ),
     "C19": (
-        "static path rules on both relay loops (read->peer write exactly once, same buffer and n, fresh buffer, no write deadline or non-negative SetLinger on a relay connection), non-mutation scan over every module function reachable from the proxy package (store, copy, in-place append into a buffer not allocated there), taint analysis of traffic-derived text to the status page with the escape helper as sanitiser, provenance (who may call Add / send on the byte channel); no relay loop closes a connection; composed with all rules of C18 for the queue the parser side feeds and all rules of C02 for the parser's segmentation",
+        "static path rules on both relay loops (read->peer write exactly once, same buffer and n, fresh buffer, no write deadline or non-negative SetLinger on a relay connection), non-mutation scan over every module function reachable from the proxy package (store, copy, in-place append into a buffer not allocated there), taint analysis of traffic-derived text (hex dumps, message text, strings made from recorded bytes) to the status page with the escape helper as sanitiser, provenance (who may call Add / send on the byte channel); no relay loop closes a connection; composed with all rules of C18 for the queue the parser side feeds and all rules of C02 for the parser's segmentation",
         "Decides the relay and escaping structure on every CFG path and every flow into the page; TCP/HTTP behaviour is outside.",
         "net.Conn Read/Write contracts; statusreporter dependency; escape helper adequacy = replaces '<' and '>' throughout",
         "DESIGN.md 4.19",
